@@ -526,6 +526,14 @@ func drawSnap(t *rapid.T, noAlias bool) Case {
 		cut = 1 + rapid.IntRange(0, nseg-2).Draw(t, "cutIn")
 	}
 	c.Cut = cut
+	c.Autosave = rapid.Bool().Draw(t, "autosave")
+	// a computed value whose body stores into its own attributes when it is evaluated (one case in eight): defined in the
+	// first command, read in later ones (before and after the cut)
+	selfStoring := ""
+	if rapid.IntRange(0, 7).Draw(t, "selfStoring") == 0 {
+		selfStoring = g.FreshName()
+		g.Reserve(selfStoring)
+	}
 	for i := 0; i < nseg; i++ {
 		var kinds []string
 		if i < cut {
@@ -575,6 +583,15 @@ func drawSnap(t *rapid.T, noAlias bool) Case {
 			ks += k
 		}
 		c.Kinds = append(c.Kinds, ks)
+		if selfStoring != "" {
+			if i == 0 {
+				verbatim = append(verbatim, "&"+selfStoring+" = (left = (left ?? 6) - 1)")
+				ks += "+self-storing-computed"
+			} else if rapid.Bool().Draw(t, "readSelfStoring") {
+				verbatim = append(verbatim, "rq"+strconv.Itoa(i)+" = ["+selfStoring+", &"+selfStoring+".left]")
+				ks += "+read-self-storing"
+			}
+		}
 		seg := printSeg(t, stmts, "noise"+strconv.Itoa(i))
 		for _, v := range verbatim {
 			seg = v + "; " + seg
